@@ -8,6 +8,10 @@ void nsync_panic_ (const char *s) { (void) s; VP_ASSUME (0); }
 /* VP-ASSUMED: nsync_yield_ has no effect on nsync state */
 void nsync_yield_ (void) { }
 
+/* VP-ASSUMED: per-thread waiter storage (thread-local / pthread key) is modelled as absent: nsync_waiter_new_ is replaced by its contract wherever it is called */
+void *nsync_per_thread_waiter_ (void (*dest) (void *)) { (void) dest; return NULL; }
+void nsync_set_per_thread_waiter_ (void *v, void (*dest) (void *)) { (void) v; (void) dest; }
+
 #ifndef VP_REAL_SEM
 /* VP-ASSUMED: nsync_mu_semaphore_p/v/p_with_deadline touch only the semaphore (arbitrary effect on the waiter's private state, none on any nsync word); this covers counting and binary semaphores */
 void nsync_mu_semaphore_init (nsync_semaphore *s) { (void) s; }
